@@ -87,4 +87,25 @@ func init() {
 		Outside:  []string{"longer boot orders (entries are decoded independently)"},
 		Assumptions: commonAssumptions,
 	}
+	c14 := func(name string, max int, extra map[string]int) HarnessSpec {
+		p := map[string]int{"vsymC14Max": max}
+		for k, v := range extra {
+			p[k] = v
+		}
+		return HarnessSpec{Name: name, Params: p, ConcAlloc: true, OpaqueFmt: true, MaxDecisions: 4000, MaxPaths: 400000, TimeoutSec: 300, NeedReach: []string{"end"}}
+	}
+	registry["C14"] = &Property{
+		Quick: []HarnessSpec{
+			c14("VC14_SignatureDatabase", 64, nil), c14("VC14_SignatureDatabaseUnmarshal", 64, nil), c14("VC14_SignatureList", 64, nil),
+			c14("VC14_AuthDescriptor", 64, nil), c14("VC14_AuthDescriptorUnmarshal", 64, nil), c14("VC14_WinCertificate", 64, nil),
+			c14("VC14_WinCertificateUEFIGUID", 64, nil), c14("VC14_SupportedSignatures", 64, nil),
+			c14("VC14_ParseUtf16Var", 10, nil), c14("VC14_ReadNullString", 16, nil), c14("VC14_BytesToGUID", 24, nil), c14("VC14_StringToGUID", 0, nil),
+			c14("VC14_LoadOption", 22, map[string]int{"vsymC14Path": 6}), c14("VC14_DevicePath", 14, nil), c14("VC14_MediaNode", 0, map[string]int{"vsymC14Path": 8}),
+			c14("VC14_Efistring", 10, nil), c14("VC14_BootOrder", 16, nil), c14("VC14_Efibool", 4, nil), c14("VC14_ParseEfivars", 32, nil),
+		},
+		Bounds: []string{"one harness per decoder entry point, every input byte and the length symbolic (length case-split): signature database/list, auth descriptor, WIN_CERTIFICATE(_UEFI_GUID), supported signatures <= 64 bytes; UTF-16 decoders <= 10 bytes; load option <= 22 bytes with description <= 3 code units; device path <= 14 bytes (three nodes); media node <= 44 bytes (file path <= 8); GUID text: canonical layout with 3 symbolic characters (one a separator position), and any text <= 4 chars; variable file <= 32 bytes with an independent symbolic stat size",
+			"obligations on every path: no panic, no log.Fatal/os.Exit, every make([]byte,n) <= 8*len+8192, termination within the unwinding bounds"},
+		Outside: []string{"inputs longer than the bounds", "wall-clock time and resident memory as measured quantities (replaced by unwinding bounds and allocation-size obligations)", "PEM key/certificate files (encoding/pem and crypto/x509 are not interpreted)", "formatted text (fmt.Sprintf is opaque in these harnesses)"},
+		Assumptions: commonAssumptions,
+	}
 }
